@@ -443,10 +443,23 @@ pub fn gen_case(r: &mut Rng, out: &mut String) {
     writeln!(out, "expect true").unwrap();
     writeln!(out, "dump b0").unwrap();
     writeln!(out, "dump b1").unwrap();
-    // a one-element difference must be visible
-    if let Some(&(s, _)) = t.first() {
-        writeln!(out, "remove b1 {}", s).unwrap();
+    // a one-element difference must be visible, WHEREVER the element sits: the smallest value, the largest value (the other
+    // side is then a prefix of this one), the end of a middle run, one value added above the maximum / below the minimum
+    if let (Some(&(s, _)), Some(&(ls, ll))) = (t.first(), t.last()) {
+        let last = ls as u64 + ll as u64 - 1;
+        let mid = t[t.len() / 2];
+        let v = match r.below(6) {
+            0 | 1 => ("remove", last),
+            2 => ("remove", s as u64),
+            3 => ("remove", mid.0 as u64 + mid.1 as u64 - 1),
+            4 if last < u32::MAX as u64 => ("insert", last + 1 + *r.pick(&[0u64, 1, 5000]).min(&(u32::MAX as u64 - last - 1))),
+            _ if s > 0 => ("insert", s as u64 - 1),
+            _ => ("remove", s as u64),
+        };
+        writeln!(out, "{} b1 {}", v.0, v.1).unwrap();
         writeln!(out, "eq b0 b1").unwrap();
+        writeln!(out, "expect false").unwrap();
+        writeln!(out, "eq b1 b0").unwrap();
         writeln!(out, "expect false").unwrap();
     }
 }
